@@ -132,15 +132,15 @@ example : HdrWF [100] [123, 125] [65] := ⟨by simp, by simp, by simp, by simp, 
     and releases exactly the plaintext with a clean EOF — for every lawful AEAD and codec, every
     file key, manifest, plaintext, and every script of the document source. -/
 theorem decrypt_encrypt (c : Crypto) (cd : Codec) (P : EncParams) (pwf : P.WF)
-    (lcd : cd.Lawful P) (fk : Bytes) (hfk : fk.length = P.fkLen)
-    (m : Manifest) (lc : c.LawfulFor P (payloadKey c P fk m.np) m.np) (hm : m.valid P = true) (p : Bytes) (o : DecryptOpts)
+    (fk : Bytes) (hfk : fk.length = P.fkLen)
+    (m : Manifest) (lcd : cd.LawfulFor m) (lc : c.LawfulFor P (payloadKey c P fk m.np) m.np) (hm : m.valid P = true) (p : Bytes) (o : DecryptOpts)
     (hkn : o.keyName ≠ [] ∨ m.keyName ≠ []) (hunwrap : ∀ kn, o.unwrap m kn = fk)
     (hhdr : (signHeader c cd P fk (cd.render m)).length ≤ P.hdrMax)
     (hcount : (segments P.segSize p).length ≤ P.maxSeg + 1)
     (r : Reader) (heof : r.term = .eof) (hstream : r.stream = specEncrypt c cd P fk m p) :
     decryptImpl c cd P o r = (p, .ok) := by
   rw [specEncrypt_eq, ← signHeader_eq] at hstream
-  obtain ⟨r', hrs, hrt, hdec⟩ := decrypt_of_honest_header true c cd P pwf lc.hmac_ne lcd fk hfk m hm o hkn hunwrap _ r heof hhdr hstream
+  obtain ⟨r', hrs, hrt, hdec⟩ := decrypt_of_honest_header true c cd P pwf lc.hmac_ne fk hfk m lcd hm o hkn hunwrap _ r heof hhdr hstream
   unfold decryptImpl
   rw [hdec]
   have hfails : r'.term.fails = false := by rw [hrt]; rfl
@@ -159,21 +159,21 @@ theorem decrypt_encrypt (c : Crypto) (cd : Codec) (P : EncParams) (pwf : P.WF)
 /-- **Interop, other direction.** A decoder written from README.md alone (`specDecrypt`) opens what
     `Encrypt` writes, for every script of the plaintext source. -/
 theorem spec_decrypts_impl (c : Crypto) (cd : Codec) (P : EncParams) (pwf : P.WF)
-    (lcd : cd.Lawful P) (o : EncryptOpts) (fk np wfk : Bytes)
+    (o : EncryptOpts) (fk np wfk : Bytes) (lcd : cd.LawfulFor (mkManifest o wfk np))
     (lc : c.LawfulFor P (payloadKey c P fk np) np) (hm : (mkManifest o wfk np).valid P = true) (r : Reader) (heof : r.term = .eof)
     (hhdr : (signHeader c cd P fk (cd.render (mkManifest o wfk np))).length ≤ P.segSize)
     (hcount : (segments P.segSize r.stream).length ≤ P.maxSeg + 1) :
     specDecrypt c cd P fk (encryptImpl c cd P o fk np wfk r).1 = some r.stream := by
   rw [encrypt_layout c cd P pwf o fk np wfk r heof hhdr hcount]
-  exact specDecrypt_specEncrypt c cd P pwf lcd fk _ lc hm r.stream
+  exact specDecrypt_specEncrypt c cd P pwf fk _ lcd lc hm r.stream
 
 /-- `Decrypt ∘ Encrypt = id` on the implementation-shaped functions themselves, including the header
     limit: whatever header `Encrypt` agrees to emit (`SignHeader` refuses more than `segSize` bytes)
     fits the buffer `readHeader` reads into (`hdrMax`), so every document `Encrypt` produces — with key
     names or wrapped keys of any size it accepts — is opened, for every script on both sides. -/
 theorem decrypt_encryptImpl (c : Crypto) (cd : Codec) (P : EncParams) (pwf : P.WF)
-    (lcd : cd.Lawful P) (hlim : P.segSize ≤ P.hdrMax)
-    (eo : EncryptOpts) (fk np wfk : Bytes) (lc : c.LawfulFor P (payloadKey c P fk np) np) (hfk : fk.length = P.fkLen)
+    (hlim : P.segSize ≤ P.hdrMax)
+    (eo : EncryptOpts) (fk np wfk : Bytes) (lcd : cd.LawfulFor (mkManifest eo wfk np)) (lc : c.LawfulFor P (payloadKey c P fk np) np) (hfk : fk.length = P.fkLen)
     (hm : (mkManifest eo wfk np).valid P = true) (o : DecryptOpts)
     (hkn : o.keyName ≠ [] ∨ (mkManifest eo wfk np).keyName ≠ [])
     (hunwrap : ∀ kn, o.unwrap (mkManifest eo wfk np) kn = fk)
@@ -183,7 +183,7 @@ theorem decrypt_encryptImpl (c : Crypto) (cd : Codec) (P : EncParams) (pwf : P.W
     (r : Reader) (heof : r.term = .eof) (hstream : r.stream = (encryptImpl c cd P eo fk np wfk src).1) :
     decryptImpl c cd P o r = (src.stream, .ok) := by
   rw [encrypt_layout c cd P pwf eo fk np wfk src hsrc hhdr hcount] at hstream
-  exact decrypt_encrypt c cd P pwf lcd fk hfk _ lc hm src.stream o hkn hunwrap (by omega) hcount r heof hstream
+  exact decrypt_encrypt c cd P pwf fk hfk _ lcd lc hm src.stream o hkn hunwrap (by omega) hcount r heof hstream
 
 /-- The parameters regenerated from the Go source satisfy what the theorems assume. -/
 theorem generated_wf : EncParams.generated.WF :=
@@ -194,15 +194,15 @@ theorem generated_wf : EncParams.generated.WF :=
 /-- The AEAD/HKDF/HMAC instance `kitdrv` executes is lawful on every run (`realCrypto_lawful`): the
     round-trip theorem therefore holds for the **concrete** Lean AES-GCM and ChaCha20-Poly1305, with no
     hypothesis about the primitives left. -/
-theorem decrypt_encrypt_real_crypto (cd : Codec) (lcd : cd.Lawful EncParams.generated)
-    (fk : Bytes) (hfk : fk.length = 32) (m : Manifest) (hm : m.valid EncParams.generated = true) (p : Bytes)
+theorem decrypt_encrypt_real_crypto (cd : Codec)
+    (fk : Bytes) (hfk : fk.length = 32) (m : Manifest) (lcd : cd.LawfulFor m) (hm : m.valid EncParams.generated = true) (p : Bytes)
     (o : DecryptOpts) (hkn : o.keyName ≠ [] ∨ m.keyName ≠ []) (hunwrap : ∀ kn, o.unwrap m kn = fk)
     (hhdr : (signHeader Real.realCrypto cd EncParams.generated fk (cd.render m)).length ≤ 65536)
     (hcount : (segments 65536 p).length ≤ 2 ^ 32)
     (r : Reader) (heof : r.term = .eof)
     (hstream : r.stream = specEncrypt Real.realCrypto cd EncParams.generated fk m p) :
     decryptImpl Real.realCrypto cd EncParams.generated o r = (p, .ok) :=
-  decrypt_encrypt Real.realCrypto cd EncParams.generated generated_wf lcd fk hfk m
+  decrypt_encrypt Real.realCrypto cd EncParams.generated generated_wf fk hfk m lcd
     (Real.realCrypto_lawful fk m.np) hm p o hkn hunwrap hhdr hcount r heof hstream
 
 /-- T1: in the source the two limits coincide (both are `SegmentSize` = 64 KiB). -/
@@ -216,6 +216,7 @@ theorem header_limit_matches :
 example : Toy.toyCrypto.Lawful EncParams.generated.overhead := Toy.toyCrypto_lawful
 example (pk np : Bytes) : Toy.toyCrypto.LawfulFor EncParams.generated pk np := Toy.toyCrypto_lawful.for pk np
 example : Toy.toyCodec.Lawful EncParams.generated := Toy.toyCodec_lawful _
+example (m : Manifest) (hm : m.valid EncParams.generated = true) : Toy.toyCodec.LawfulFor m := (Toy.toyCodec_lawful _).for m hm
 example : (⟨[107], 1, [1, 2, 3], 2, [1, 2, 3, 4, 5, 6, 7]⟩ : Manifest).valid EncParams.generated = true := by decide
 
 /-! ### tables (over the facts regenerated from algorithms.go / ciphers.go / scheme.go) -/
